@@ -171,7 +171,12 @@ def make_model(crate, parse_bounds, counter):
             base = Base("M", 0, absint.U32_MAX, 2)     # hypothesis: values of named_map are 2 mod 4 (O6 proves it inductive)
             return [(("variant", 1, Aff(base, 1, 0)), ("map-hit",)), (("variant", 0, None), ("map-miss",))]
         if name == "len":
-            return [(Aff(Base("L", 0, (1 << 30) - 1, None), 1, 0), None)]
+            # the length of the name VECTOR (which Display indexes) is "L"; the length of anything else is a different quantity
+            what = str(getattr(args[0], "what", "")) if args else ""
+            key = what[4:].split(".")[-1] if what.startswith("ref:") else what.split(".")[-1]
+            vecf = slot_table(crate)["vec"]
+            nm_ = "L" if (key == vecf or not key) else "LEN_OF_" + key
+            return [(Aff(Base(nm_, 0, (1 << 30) - 1, None), 1, 0), None)]
         if name == "starts_with":
             return [(Opaque("starts_with"), None)]
         if name == "replace" and args and isinstance(args[0], Opaque) and str(args[0].what).startswith("ref:"):
@@ -353,6 +358,15 @@ def o2(ctx):
                       "after parsing f<n> the counter (%r) is above the parsed slot (%r) on the %s path" % (Fend, v, "bumped" if stores else "not-bumped"),
                       "after Slot::named(\"f<n>\") the fresh counter (%r) is not provably above the parsed slot (%r) on the path where the counter is %s: a later Slot::fresh() can return the slot the user already owns" % (Fend, v, "bumped" if stores else "left unchanged"),
                       where_of(ncl))
+        # on every path the name vector and the name map grow together: an insert into the map without a push to the vector (a
+        # numeric / f<n> name memoised in the map) makes map.len() and vec.len() drift apart — harmless alone, fatal together
+        # with any index taken from the map's size
+        n_push = sum(1 for e in p.events if e[0] == "call" and e[1] == "push")
+        n_ins = sum(1 for e in p.events if e[0] == "call" and e[1] == "insert")
+        ctx.check(n_push == n_ins, "O6:vector-and-map-grow-together", "on this path the name vector and the name map receive the same number of entries (%d)" % n_push,
+                  "a path through the interning code inserts %d entr%s into the name map but pushes %d onto the name vector: the two tables no longer describe the same set of names (an index derived from one does not address the other)" % (n_ins, "y" if n_ins == 1 else "ies", n_push), where_of(ncl))
+        if parsed:
+            pass
         elif hit:
             kinds["hit"] += 1
             ctx.check(isinstance(v, Aff) and v.base is not None and v.base.name == "M" and v.a == 1 and v.c == 0, "O6:hit-returns-mapped", "a known name returns the interned value", "a known name returns %r" % (v,), where_of(ncl))
